@@ -576,10 +576,11 @@ func (device *AbacoUDPReceiver) start() (err error) {
 		for {
 			select {
 			case _, ok := <-device.sendmore:
-				device.data <- queue
 				if !ok {
+					// stop() closed the channel: nobody will read device.data any more, so do not try to send.
 					return
 				}
+				device.data <- queue
 				queue = make([]*packets.Packet, 0, initialQueueCapacity)
 			default:
 				_, _, err := device.conn.ReadFrom(message)
